@@ -412,7 +412,50 @@ impl Stub for &Scripted {
     }
 }
 
+/// A request with a name of its own, as the generated request enums have.
+struct Named(&'static str);
+impl tarpc::RequestName for Named {
+    fn name(&self) -> &str {
+        self.0
+    }
+}
+struct NameLog(RefCell<Vec<String>>);
+impl Stub for &NameLog {
+    type Req = Arc<Named>;
+    type Resp = u64;
+    async fn call(&self, _: context::Context, r: Arc<Named>) -> Result<u64, RpcError> {
+        use tarpc::RequestName;
+        self.0.borrow_mut().push(r.name().to_string());
+        Err(RpcError::Shutdown)
+    }
+}
+
+/// What travels below the retry stub is the caller's request behind an `Arc`: every attempt still
+/// bears the request's own name (spans and server hooks read it), as does a boxed request
+/// (seeded change C17n gave the smart-pointer impls of RequestName a default body).
+fn retry_names(st: &mut St) {
+    use tarpc::RequestName;
+    for name in ["World.hello", "World.add", ""] {
+        st.evals += 1;
+        st.distinct.insert(h(&("retry-name", name)));
+        let direct = (Arc::new(Named(name)).name().to_string(), Box::new(Named(name)).name().to_string());
+        if direct.0 != name || direct.1 != name {
+            st.failures.push(("C20-retry-request-name".into(), format!("a request named {name:?} reports the name {:?} behind an Arc and {:?} in a Box", direct.0, direct.1)));
+        }
+        let backend = NameLog(RefCell::new(vec![]));
+        let stub = Retry::new(&backend, |_: &Result<u64, RpcError>, attempt: u32| attempt < 3);
+        let f = stub.call(context::current(), Named(name));
+        futures::pin_mut!(f);
+        let _ = drive(f, 100);
+        let seen = backend.0.borrow().clone();
+        if seen.len() != 3 || seen.iter().any(|n| n != name) {
+            st.failures.push(("C20-retry-request-name".into(), format!("three attempts of a request named {name:?} through the retry stub reached the backend under the names {seen:?}")));
+        }
+    }
+}
+
 fn retry(st: &mut St, max_len: usize) {
+    retry_names(st);
     // two callers' contexts: a deadline ten seconds away, and one that has already passed (every
     // attempt is still made with the caller's context, not with a fresh one)
     let now = std::time::Instant::now();
